@@ -594,6 +594,77 @@ def profFrom : Source → WireProf → DBProf
 def lookupFrom (src : Source) (w : WireProf) (dev : Str) (authOK : Bool) : Lookup :=
   .found (profFrom src w).prof dev (profFrom src w).deleted authOK
 
+/-! ## Production wiring (round 4)
+
+What `internal/cmd` makes of the configuration file for this property: `builder.queryLog` (a file log
+only if `query_log.file.enabled`, otherwise `querylog.Empty`), `serverGroups.toInternal`
+(`profiles_enabled`, the device domains = `tls.device_id_wildcards` without `*.`, per server
+`linked_ip_enabled` and the protocol), `dnssvc.newDeviceFinder` (a group without profiles gets
+`agd.EmptyDeviceFinder`, whatever the shared profile database holds) and the part of
+`devicefinder.Default` that chooses the database key (a device ID from the TLS server name only under
+one of *this group's* device domains; the linked address only on a plain-DNS server with
+`linked_ip_enabled`).  One main middleware, hence one `recordQueryInfo`, serves all groups. -/
+
+/-- `serverProto.toInternal` (the YAML protocol names → `agd.Protocol`, the `p` of doc/querylog.md):
+0 `dns`, 1 `dnscrypt`, 2 `https`, 3 `quic`, 4 `tls`. -/
+def protoOfYAML (k : Nat) : Nat :=
+  match k with
+  | 0 => 8 | 1 => 9 | 2 => 3 | 3 => 4 | 4 => 5 | _ => 0
+
+structure WServer where
+  proto : Nat
+  linkedIP : Bool
+deriving Repr, DecidableEq
+
+structure WGroup where
+  profilesEnabled : Bool
+  domains : List Str
+deriving Repr, DecidableEq
+
+/-- How a request identifies itself and what the (shared) profile database would answer. -/
+structure Ident where
+  /-- the TLS server name split at its first dot: (first label, parent domain) -/
+  sni : Option (Str × Str) := none
+  /-- the database's answer for the device ID in that label -/
+  byID : Lookup := .notFound
+  /-- the database's answer for the remote address as a linked address -/
+  byLinked : Lookup := .notFound
+deriving Repr, DecidableEq
+
+/-- The device ID the finder of group `g`, server `sv` extracts (`deviceDataFromCliSrvName`). -/
+def wiredDevID (g : WGroup) (sv : WServer) (id : Ident) : Option Str :=
+  match id.sni with
+  | some (lab, dom) =>
+    if (sv.proto = 3 ∨ sv.proto = 4 ∨ sv.proto = 5) ∧ dom ∈ g.domains then some lab else none
+  | none => none
+
+/-- `newDeviceFinder` + `Default.Find` + `deviceFromDB`: `none` is the empty device finder. -/
+def wiredLookup (g : WGroup) (sv : WServer) (id : Ident) : Option Lookup :=
+  if ¬ g.profilesEnabled then none
+  else match wiredDevID g sv id with
+    | some _ => some id.byID
+    | none => if sv.proto = 8 ∧ sv.linkedIP then some id.byLinked else some .notFound
+
+def wiredDev (g : WGroup) (sv : WServer) (id : Ident) : DevRes :=
+  match wiredLookup g sv id with
+  | none => .anon
+  | some l => findDevice (supportsDeviceID sv.proto) l
+
+/-- The request as the handler of (`g`, `sv`) sees it. -/
+def wiredReq (g : WGroup) (sv : WServer) (id : Ident) (q : Req) : Req :=
+  { q with dev := wiredDev g sv id, proto := sv.proto }
+
+def wiredServe (g : WGroup) (sv : WServer) (id : Ident) (q : Req) : Effects :=
+  serve (wiredReq g sv id q)
+
+/-- What the request adds to the file at `QUERYLOG_PATH`: `querylog.Empty` writes nothing. -/
+def wiredFile (fileEnabled : Bool) (g : WGroup) (sv : WServer) (id : Ident) (q : Req) (rn : Nat) : Str :=
+  if fileEnabled then
+    match (wiredServe g sv id q).log with
+    | some e => encodeLine e rn
+    | none => []
+  else []
+
 /-! ## The log file under concurrent writers -/
 
 /-- A pooled `entryBuffer`: the `jsonlEntry` (as the entry and its random number) and the bytes. -/
@@ -611,7 +682,8 @@ def put {α : Type} (f : Nat → α) (k : Nat) (v : α) : Nat → α := fun x =>
 
 /-- `pc i`: 0 not started, 1 has a reset buffer, 2 entry stored, 3 file opened and entry encoded,
 4 appended, 5 buffer returned; 6 opening the file failed (buffer still held), 7 buffer returned after
-the failure.  `hold i` is the pooled buffer writer `i` got. -/
+the failure; 8 the write after a successful open failed with nothing written (the buffer still holds
+the encoded record), 9 that dirty buffer returned to the pool.  `hold i` is the pooled buffer writer `i` got. -/
 structure FS where
   file : Str := []
   nbufs : Nat := 0
@@ -639,7 +711,8 @@ def lineOf (J : Jobs) (i : Nat) : Str :=
 
 /-- One step of writer `i`.  `choice` is what the environment does: at the first step what
 `sync.Pool.Get` does (`some k` with `k` pooled hands out buffer `k`; anything else allocates a new
-one), at the step from 2 whether `os.OpenFile` fails (`some _`) or not (`none`). -/
+one), at the step from 2 whether `os.OpenFile` fails (`some _`) or not (`none`), at the step from 3
+whether the `write(2)` fails (`some _`) or not (`none`). -/
 def FS.step (J : Jobs) (s : FS) (i : Nat) (choice : Option Nat) : FS :=
   match J i with
   | none => s
@@ -667,12 +740,19 @@ def FS.step (J : Jobs) (s : FS) (i : Nat) (choice : Option Nat) : FS :=
                       | none => []) },
                pc := put s.pc i 3 }
     | 3 =>
+      match choice with
+      | some _ =>
+        -- `write(2)` fails with nothing written (no space left, `/dev/full`): `bytes.Buffer.WriteTo`
+        -- keeps the unwritten record in the pooled buffer; `Write` returns the error
+        { s with pc := put s.pc i 8 }
+      | none =>
       { s with file := s.file ++ (s.bufs (s.hold i)).bytes,
                bufs := put s.bufs (s.hold i) { s.bufs (s.hold i) with bytes := [] },
                order := s.order ++ [i],
                pc := put s.pc i 4 }
     | 4 => { s with free := s.hold i :: s.free, pc := put s.pc i 5 }
     | 6 => { s with free := s.hold i :: s.free, pc := put s.pc i 7 }
+    | 8 => { s with free := s.hold i :: s.free, pc := put s.pc i 9 }
     | _ => s
 
 def FS.run (J : Jobs) (s : FS) : List (Nat × Option Nat) → FS
